@@ -55,7 +55,7 @@ class Observation:
         self.orphans = []
 
 
-def observe(parent, x_node, items, inner=None, monitor=True):
+def observe(parent, x_node, items, inner=None, monitor=True, prelude=None):
     """x_node: ['roll', w, s, None] etc. (pipeline slot None is filled with [to_list] or `inner`)"""
     log = []
     x = copy.deepcopy(x_node)
@@ -70,11 +70,21 @@ def observe(parent, x_node, items, inner=None, monitor=True):
     ob = Observation()
     ob.log = log
     mon = Monitor() if monitor else None
+    if prelude:
+        # the observable first lives through aborted subscriptions (disposed, source error, failing consumer);
+        # the judged subscription comes after them and owes exactly the same events
+        src = progs.Controlled()
+        obs = src.observable.pipe(rs.state.with_memory_store(ops_))
+        progs.play_prelude(obs, src, items, prelude)
+        del log[:]
+        run = lambda: progs.drive(obs, src, items, Snap())          # noqa: E731
+    else:
+        run = lambda: subscribe(rx.from_(items).pipe(rs.state.with_memory_store(ops_)), Snap())     # noqa: E731
     if mon:
         with mon:
-            ob.snap = subscribe(rx.from_(items).pipe(rs.state.with_memory_store(ops_)), Snap())
+            ob.snap = run()
     else:
-        ob.snap = subscribe(rx.from_(items).pipe(rs.state.with_memory_store(ops_)), Snap())
+        ob.snap = run()
     ob.monitor = mon
     O, odd_o = tagged_lifetimes(log, 'O')
     I, odd_i = tagged_lifetimes(log, 'I')
